@@ -30,5 +30,5 @@ if [ $w -eq 0 ] && [ $m -ne 0 ] && [ $s -eq 0 ]; then
   grep -m3 -- "--- FAIL\|Error:\|expected" /tmp/seed-$id-with.log > /verif/seeded/$id/demo_failure.txt
   echo "RESULT confirmed"
 else
-  echo "RESULT rejected"; tail -5 /tmp/seed-$id-with.log /tmp/seed-$id-without.log /tmp/seed-$id-suite.log
+  echo "RESULT rejected"; for f in with without suite; do tail -n 5 /tmp/seed-$id-$f.log; done
 fi
